@@ -750,16 +750,19 @@ func fontSize(computer *ComputedStyle, _ pr.KnownProp, _value pr.CssProperty) pr
 func fontWeight(computer *ComputedStyle, _ pr.KnownProp, _value pr.CssProperty) pr.CssProperty {
 	value := _value.(pr.IntString)
 	var out int
+	// on the root element, bolder and lighter are relative to the initial value
+	parentValue := pr.InitialValues.GetFontWeight().Int
+	if computer.parentStyle != nil {
+		parentValue = computer.parentStyle.GetFontWeight().Int
+	}
 	switch value.String {
 	case "normal":
 		out = 400
 	case "bold":
 		out = 700
 	case "bolder":
-		parentValue := computer.parentStyle.GetFontWeight().Int
 		out = fontWeightRelative.bolder[parentValue]
 	case "lighter":
-		parentValue := computer.parentStyle.GetFontWeight().Int
 		out = fontWeightRelative.lighter[parentValue]
 	default:
 		out = value.Int
